@@ -1095,8 +1095,6 @@ where
         decreases 0int, {
         let mut num_passes = 0;
         let mut num_fails = 0;
-                    let ghost s_line = resolver.stack();
-let mut num_of_disjunction_fails = 0;
         let context = verif_fmt();
         let verif_s0 = conjunctions;
 let mut verif_i0: usize = 0;
@@ -1122,6 +1120,8 @@ let mut verif_i0: usize = 0;
 let conjunction = &verif_s0[verif_i0];
 verif_i0 = verif_i0 + 1;
 
+                        let ghost s_line = resolver.stack();
+let mut num_of_disjunction_fails = 0;
             let multiple_ors_present = conjunction.len() > 1;
             if multiple_ors_present {
                 resolver.start_record(&context)?;
